@@ -98,3 +98,5 @@ let run_hist = function
       | _ -> failwith "bad step" in
     L [A "trace"; L (go M.init_state ops [])]
   | _ -> failwith "bad hist case"
+
+let () = register "hist" run_hist
